@@ -408,13 +408,13 @@ theorem call_mask_matching (fs : List (TField K R)) (αr αc : R) (W0 W1 : Int) 
   · unfold propagateDftCall; rw [(resolved_mask fs αr αc _ _ _ _ m).2.2 hg b hb]
     simp only [propagateDft, maskOutExtent, Gen.dftOutExtentArgsMask, outExtent, Gen.dftShapeOut, h0, h1]
 
-/-- **The mask-shape guard as written refuses only when BOTH dimensions differ** (`np.all(mask.shape != shape_out)`): the call ends in
-ValueError iff neither dimension of the mask matches the output array. A mask that matches in one dimension only is accepted and its
-bounding box is centred on the MASK's own shape (`maskOutExtent` takes `m.s0, m.s1`) — recorded as known finding
-`KF-C02-mask-shape-guard`; the theorems about placement assume a mask of the output shape (`call_mask_matching`). -/
+/-- **A mask of the wrong shape is refused**: the call ends in ValueError iff the mask differs from the output array
+`shape * oversample` in EITHER dimension (generated guard `np.any(mask.shape != shape_out)`); so every mask that is accepted has exactly
+the output shape and `call_mask_matching` applies to it. (Before fix FIXHASH the guard was `np.all`, which let a mask that was wrong in
+one dimension through and centred its bounding box on the mask's own shape — former known finding `KF-C02-mask-shape-guard`.) -/
 theorem call_mask_refused_iff (fs : List (TField K R)) (αr αc : R) (W0 W1 : Int) (shape propShape : Gen.ShapeArg) (os : Int) (m : Arr Bool) :
     propagateDftCall fs αr αc W0 W1 shape propShape os (some m) = .valueError ↔
-      m.s0 ≠ (Gen.dftShapeDefault W0 W1 shape).1 * os ∧ m.s1 ≠ (Gen.dftShapeDefault W0 W1 shape).2 * os := by
+      m.s0 ≠ (Gen.dftShapeDefault W0 W1 shape).1 * os ∨ m.s1 ≠ (Gen.dftShapeDefault W0 W1 shape).2 * os := by
   unfold propagateDftCall
   obtain ⟨ht, hn, hs⟩ := resolved_mask fs αr αc
     (Gen.dftShapeOut (Gen.dftShapeDefault W0 W1 shape).1 (Gen.dftShapeDefault W0 W1 shape).2 os).1
@@ -430,15 +430,24 @@ theorem call_mask_refused_iff (fs : List (TField K R)) (αr αc : R) (W0 W1 : In
     simp only [true_iff]
     simpa [Gen.dftMaskMismatch, Gen.dftShapeOut] using hg
   | false =>
-    have hne : ¬ (m.s0 ≠ (Gen.dftShapeDefault W0 W1 shape).1 * os ∧ m.s1 ≠ (Gen.dftShapeDefault W0 W1 shape).2 * os) := by
+    have hne : ¬ (m.s0 ≠ (Gen.dftShapeDefault W0 W1 shape).1 * os ∨ m.s1 ≠ (Gen.dftShapeDefault W0 W1 shape).2 * os) := by
       simpa [Gen.dftMaskMismatch, Gen.dftShapeOut] using hg
     simp only [hne, iff_false]
     cases hb : boundary m with
     | none => rw [hn hg hb]; exact fun h => by cases h
     | some b => rw [hs hg b hb]; exact fun h => by cases h
 
-/-- the known finding, concretely: an 8x10 mask is accepted for an 8x8 output array -/
-theorem kf_mask_shape_guard : Gen.dftMaskMismatch 8 10 8 8 = false ∧ ((8 : Int), (10 : Int)) ≠ (8, 8) := by decide
+/-- **An accepted mask has the output shape**: whenever the call with a mask is not a ValueError, the mask's shape is `shape * oversample`. -/
+theorem accepted_mask_has_output_shape (fs : List (TField K R)) (αr αc : R) (W0 W1 : Int) (shape propShape : Gen.ShapeArg) (os : Int) (m : Arr Bool)
+    (h : propagateDftCall fs αr αc W0 W1 shape propShape os (some m) ≠ .valueError) :
+    m.s0 = (Gen.dftShapeDefault W0 W1 shape).1 * os ∧ m.s1 = (Gen.dftShapeDefault W0 W1 shape).2 * os := by
+  have := (not_congr (call_mask_refused_iff fs αr αc W0 W1 shape propShape os m)).mp h
+  exact ⟨not_not.mp fun h0 => this (Or.inl h0), not_not.mp fun h1 => this (Or.inr h1)⟩
+
+/-- the witnesses of the former known finding are refused now: an 8x10 or a 10x8 mask for an 8x8 output array raises ValueError
+(and the 8x8 mask is accepted) -/
+theorem former_mask_witness_refused :
+    Gen.dftMaskMismatch 8 10 8 8 = true ∧ Gen.dftMaskMismatch 10 8 8 8 = true ∧ Gen.dftMaskMismatch 8 8 8 8 = false := by decide
 
 /-! ## Non-vacuity: the hypotheses are satisfiable by concrete, non-trivial instances -/
 section
